@@ -13,12 +13,13 @@ import (
 	"strings"
 	"sync"
 
+	gosmtp "github.com/emersion/go-smtp"
 	"github.com/foxcpp/maddy/framework/exterrors"
 	"verifkit/prng"
 )
 
 type node struct {
-	Kind string `json:"kind"` // smtp temp fields operr dnserr wrapf plain deadline
+	Kind string `json:"kind"` // smtp gosmtp temp fields operr dnserr wrapf plain deadline
 	Code int    `json:"code,omitempty"`
 	Enh  [3]int `json:"enh,omitempty"`
 	Msg  string `json:"msg,omitempty"`
@@ -40,6 +41,10 @@ type chain struct {
 	HasMarker   bool     `json:"has_marker"`
 	Marker      bool     `json:"marker_temporary,omitempty"`
 	HasDeadline bool     `json:"has_deadline,omitempty"`
+	// BareGoSMTP: the whole error is a plain go-smtp *SMTPError (the deprecated
+	// but supported annotation type both reply conversions special-case).
+	BareGoSMTP bool `json:"bare_go_smtp,omitempty"`
+	MultiLine  bool `json:"multi_line,omitempty"`
 	MsgKind     string   `json:"msg_kind,omitempty"`
 	Tokens      []string `json:"-"`
 }
@@ -60,7 +65,7 @@ func secretToken(p *prng.R) string {
 }
 
 func genMsg(p *prng.R) (string, string) {
-	switch p.Intn(8) {
+	switch p.Intn(10) {
 	case 0, 1, 2:
 		return "Policy says no " + fmt.Sprint(p.Intn(1000)), "ascii"
 	case 3:
@@ -71,8 +76,12 @@ func genMsg(p *prng.R) (string, string) {
 		return "café ÿ Ā 邮箱 \U0001F4E7", "utf8-mixed"
 	case 6:
 		return "tilde~ {braces} |bar| stay", "ascii-edge"
-	default:
+	case 7:
 		return "\u0080", "u0080-only"
+	case 8:
+		return "first line " + fmt.Sprint(p.Intn(1000)) + "\nsecond line\r\nthird", "multiline"
+	default:
+		return "première ligne \u0080 " + fmt.Sprint(p.Intn(1000)) + "\nsecond line", "multiline-utf8"
 	}
 }
 
@@ -85,7 +94,10 @@ func genChain(p *prng.R) *chain {
 		var n node
 		var kinds []string
 		if leaf {
-			kinds = []string{"smtp", "smtp", "plain", "plain", "dnserr", "deadline"}
+			kinds = []string{"smtp", "smtp", "plain", "plain", "dnserr", "deadline", "gosmtp"}
+			if depth == 1 {
+				kinds = append(kinds, "gosmtp", "gosmtp")
+			}
 		} else {
 			kinds = []string{"smtp", "smtp", "temp", "temp", "fields", "fields", "operr", "dnserr", "wrapf"}
 		}
@@ -105,6 +117,24 @@ func genChain(p *prng.R) *chain {
 			}
 			n.Msg, _ = genMsg(p)
 			n.Text = secretToken(p) // Reason
+		case "gosmtp":
+			var cp codePair
+			if p.Bool() {
+				cp = prng.Pick(p, tempCodes)
+			} else {
+				cp = prng.Pick(p, permCodes)
+			}
+			n.Code, n.Enh = cp.code, cp.enh
+			if p.Chance(1, 4) {
+				n.Enh = [3]int{} // EnhancedCodeNotSet
+			}
+			if i == 0 {
+				n.Msg, _ = genMsg(p)
+			} else {
+				// wrapped: nothing reads its annotation, its text is internal detail
+				n.Text = secretToken(p)
+				n.Msg = "downstream said " + n.Text
+			}
 		case "temp":
 			n.Temp = p.Bool()
 		case "fields":
@@ -132,7 +162,7 @@ func genChain(p *prng.R) *chain {
 
 func hasTempMethod(kind string) bool {
 	switch kind {
-	case "smtp", "temp", "operr", "dnserr", "deadline":
+	case "smtp", "gosmtp", "temp", "operr", "dnserr", "deadline":
 		return true
 	}
 	return false
@@ -143,7 +173,7 @@ func hasTempMethod(kind string) bool {
 func (c *chain) nodeTemp(i int) bool {
 	n := c.Nodes[i]
 	switch n.Kind {
-	case "smtp":
+	case "smtp", "gosmtp":
 		return n.Code/100 == 4
 	case "temp":
 		return n.Temp
@@ -162,9 +192,13 @@ func (c *chain) nodeTemp(i int) bool {
 }
 
 func (c *chain) model() {
-	c.Annotated, c.HasMarker, c.HasDeadline = false, false, false
+	c.Annotated, c.HasMarker, c.HasDeadline, c.BareGoSMTP = false, false, false, false
 	c.Tokens = nil
 	for i, n := range c.Nodes {
+		if i == 0 && n.Kind == "gosmtp" {
+			c.Annotated, c.BareGoSMTP = true, true
+			c.Code, c.Enh, c.Msg = n.Code, n.Enh, n.Msg
+		}
 		if !c.HasMarker && hasTempMethod(n.Kind) {
 			c.HasMarker = true
 			c.Marker = c.nodeTemp(i)
@@ -196,6 +230,7 @@ func (c *chain) model() {
 	}
 	if c.Annotated {
 		c.MsgKind = msgKind(c.Msg)
+		c.MultiLine = strings.ContainsAny(c.Msg, "\r\n")
 	}
 }
 
@@ -252,7 +287,7 @@ func (c *chain) shape() string {
 	for _, n := range c.Nodes {
 		s := n.Kind
 		switch n.Kind {
-		case "smtp":
+		case "smtp", "gosmtp":
 			s += fmt.Sprint(n.Code / 100)
 			if n.Enh == [3]int{} {
 				s += "noenh"
@@ -321,6 +356,8 @@ func (c *chain) build() error {
 				se.Reason = "internal reason " + n.Text
 			}
 			err = se
+		case "gosmtp":
+			err = &gosmtp.SMTPError{Code: n.Code, EnhancedCode: gosmtp.EnhancedCode{n.Enh[0], n.Enh[1], n.Enh[2]}, Message: n.Msg}
 		case "temp":
 			err = exterrors.WithTemporary(err, n.Temp)
 		case "fields":
